@@ -870,6 +870,11 @@ func (s *Service) ProcessRequest(ctx *core.Context, m map[string]interface{}, ou
 		ctx.LogAccumulatorLevel = core.EVERYTHING
 		// ToDo: Support number of steps to take.
 		err = s.System.RetryEventWork(ctx, location, &fr)
+		if err != nil {
+			// As for /api/loc/events/ingest.  (The next
+			// statement used to overwrite this error.)
+			return nil, err
+		}
 		js, err := json.Marshal(fr)
 		if err != nil {
 			return nil, err
